@@ -2,6 +2,7 @@ import Driver.Core
 import Driver.Pure
 import Driver.Vdb
 import Driver.Ledger
+import Driver.Spork
 import Driver.Pool
 import Driver.Rewards
 import Driver.Consensus
@@ -15,6 +16,7 @@ def registry : List Obj := [
   pureObj pureRpc,
   vdbObj,
   ledgerObj,
+  sporkObj,
   pureObj purePool,
   pureObj pureRewards,
   mkObj (⟨[], none⟩ : ZV.Pool.PState) poolStep,
